@@ -587,7 +587,9 @@ func Run[C any](t *testing.T, spec Spec[C]) {
 		// lost the class altogether is still caught: for n = 30 and a minimum of 0.3 the bar is 0, i.e. "never seen", for
 		// n = 1000 it is 0.24).
 		bar := frac - 4*math.Sqrt(frac*(1-frac)/n)
-		if (bar > 0 && got < bar) || (bar <= 0 && s.Labels[l] == 0) {
+		// With a bar at or below zero only "never seen" can count, and only when that is as unlikely under the minimum as the four
+		// standard errors above (a shard that an overloaded machine stopped after a handful of cases proves nothing about the generator).
+		if (bar > 0 && got < bar) || (bar <= 0 && s.Labels[l] == 0 && math.Pow(1-frac, n) < 1e-4) {
 			s.Health = append(s.Health, fmt.Sprintf("label %q in %.4f of %d evaluations, need >= %.4f (bar %.4f)", l, got, int64(n), frac, bar))
 		}
 	}
